@@ -517,9 +517,18 @@ def inject_waivers(vdir):
         toks = tokenize(text)
         inserts = []
         for w in ws:
-            lo, hi = find_function(text, toks, w["func"])
+            try:
+                lo, hi = find_function(text, toks, w["func"])
+            except StageError:
+                done.append("%s:%s waiver for %r not applied: function not found" % (fname, w["func"], w["anchor"]))
+                continue
             body_s, body_e = toks[lo][3], toks[hi][2]
             cnt = text.count(w["anchor"], body_s, body_e)
+            if cnt == 0:
+                # the construct the waiver was written for is gone (the function was rewritten): nothing to waive; every check
+                # stays on for the new text
+                done.append("%s:%s waiver for %r not applied: the text no longer occurs" % (fname, w["func"], w["anchor"]))
+                continue
             if cnt != 1:
                 raise StageError("waiver anchor %r occurs %d times in %s:%s (need 1)" % (w["anchor"], cnt, fname, w["func"]))
             apos = text.index(w["anchor"], body_s, body_e)
